@@ -272,6 +272,27 @@ func substBF(f *BF, m map[ssa.Value]*Sym) *BF {
 // of the analysed packages, over its own parameters; nil if it is not of that shape.
 func (p *Prog) helperBF(fn *ssa.Function) *BF { return p.helperBFMode(fn, false) }
 
+// helperNonEmptyBF: for a pure, loop-free helper returning a string, the formula under which
+// the result is non-empty (every return is a string constant or a literal-prefixed Sprintf).
+func (p *Prog) helperNonEmptyBF(fn *ssa.Function) *BF {
+	if p.helperStrCache == nil {
+		p.helperStrCache = map[*ssa.Function]*BF{}
+	}
+	if f, ok := p.helperStrCache[fn]; ok {
+		return f
+	}
+	p.helperStrCache[fn] = nil
+	strMode = true
+	f := p.helperBFMode(fn, true)
+	strMode = false
+	// helperBFMode cached it under the non-nil cache: move it
+	delete(p.helperNilCache, fn)
+	p.helperStrCache[fn] = f
+	return f
+}
+
+var strMode bool
+
 // helperNonNilBF: for a pure, loop-free helper returning an interface or pointer, the formula
 // (over its parameters) under which the result is non-nil; nil if not of that shape.
 func (p *Prog) helperNonNilBF(fn *ssa.Function) *BF { return p.helperBFMode(fn, true) }
@@ -296,7 +317,11 @@ func (p *Prog) helperBFMode(fn *ssa.Function, nonNil bool) *BF {
 	if pk == nil || !isOurPath(pk.Path()) || !p.IsPure(fn) {
 		return nil
 	}
-	if nonNil {
+	if nonNil && strMode {
+		if b, ok := fn.Signature.Results().At(0).Type().Underlying().(*types.Basic); !ok || b.Kind() != types.String {
+			return nil
+		}
+	} else if nonNil {
 		switch fn.Signature.Results().At(0).Type().Underlying().(type) {
 		case *types.Interface, *types.Pointer:
 		default:
@@ -341,7 +366,13 @@ func (p *Prog) helperBFMode(fn *ssa.Function, nonNil bool) *BF {
 		isNil := false
 		if nonNil {
 			rv := fi.RetVal(ret, 0)
-			if k, isK := rv.(*ssa.Const); isK && k.Value == nil {
+			if strMode {
+				if k, isK := rv.(*ssa.Const); isK && k.Value != nil && k.Value.Kind() == constant.String {
+					isNil = constant.StringVal(k.Value) == ""
+				} else if !nonEmptyString(rv) {
+					return nil
+				}
+			} else if k, isK := rv.(*ssa.Const); isK && k.Value == nil {
 				isNil = true
 			} else if !isNonNilValue(rv) {
 				return nil
@@ -476,6 +507,25 @@ func (fi *FuncInfo) valueBF1(v ssa.Value, depth int) *BF {
 					}
 				}
 			}
+			if call, k := asCallEmptyString(x.X, x.Y); call != nil && depth < 4 {
+				if callee := call.Common().StaticCallee(); callee != nil {
+					if hf := fi.P.helperNonEmptyBF(callee); hf != nil {
+						args := callArgs(call)
+						if len(args) == len(callee.Params) {
+							m := map[ssa.Value]*Sym{}
+							for i, prm := range callee.Params {
+								m[prm] = fi.Sym(args[i])
+							}
+							f := substBF(hf, m)
+							_ = k
+							if x.Op == token.EQL {
+								return bfNot(f)
+							}
+							return f
+						}
+					}
+				}
+			}
 			ph, k := asPhiConst(x.X, x.Y)
 			if ph != nil {
 				eq := x.Op == token.EQL
@@ -509,6 +559,27 @@ func asCallNil(a, b ssa.Value) (*ssa.Call, *ssa.Const) {
 	}
 	if c, ok := b.(*ssa.Call); ok {
 		if k, ok := a.(*ssa.Const); ok && k.Value == nil {
+			return c, k
+		}
+	}
+	return nil, nil
+}
+
+func asCallEmptyString(a, b ssa.Value) (*ssa.Call, *ssa.Const) {
+	isEmpty := func(v ssa.Value) *ssa.Const {
+		k, ok := v.(*ssa.Const)
+		if ok && k.Value != nil && k.Value.Kind() == constant.String && constant.StringVal(k.Value) == "" {
+			return k
+		}
+		return nil
+	}
+	if c, ok := a.(*ssa.Call); ok {
+		if k := isEmpty(b); k != nil {
+			return c, k
+		}
+	}
+	if c, ok := b.(*ssa.Call); ok {
+		if k := isEmpty(a); k != nil {
 			return c, k
 		}
 	}
